@@ -13,6 +13,8 @@ STR_POOL = ["x", "äöü ✓", "line\nbreak", "\"quoted\"", "yes", "no", "null",
             "{}", "[1]", "true", "  padded  ", "tab\there", "'single'", "\\back", "é" * 40, "%", "!tag", "&anchor", "*alias", "|",
             ">", "0x1F", "1e3", ".inf", "2001-01-01", "=", "NaN",
             # beyond the Basic Multilingual Plane (JSON writes surrogate pairs), other awkward code points
+            # longer than a YAML line, with runs of spaces where a writer would fold
+            "w" * 70 + "   " + "v" * 30, ("word  " * 30).strip(), "x" * 200,
             "smile \U0001F600", "\U0001D6FC", "\U00020BB7 han", "\u2028 ls", "nbsp\u00a0", "\x7f del", "zero\u200bwidth"]
 
 
